@@ -51,6 +51,8 @@ def replay(ctx, cases, prefixes):
 def describe(c):
     if c["kind"] == "tree":
         return "tree type %d" % c["tree"]["ty"]
+    if c["kind"] == "twins":
+        return "twin inputs agreeing on the first %d bytes (declared extent of the top-level item)" % c["extent"]
     return "accepted by the format" if c.get("accept") else "rejected by the format: %s" % c.get("why")
 
 
